@@ -175,6 +175,32 @@ def offset_reservation_rule(ctx: Ctx, rid: str):
                         if any(isinstance(x, ast.Name) and any(isinstance(v, ast.Call) and "slotSecondsUsed" in norm(v) for v in res_(x))
                                for x in ast.walk(lit_compare(t) or ast.Constant(value=0)))]
         ok = ok and zero_default and not other_guards
+        # the "first slot of this task" part of the guard gives the same answer for every member of a team: it reads no field that
+        # bookResources writes inside its loop over the members (the per-slot effort accumulator is written after the loop)
+        brs = ctx.repo.func("TaskScenario.bookResources")
+        loop_writes = set()
+        for lp in own_nodes(brs):
+            if isinstance(lp, ast.For):
+                for x in ast.walk(lp):
+                    if isinstance(x, (ast.Assign, ast.AugAssign)):
+                        for t_ in (x.targets if isinstance(x, ast.Assign) else [x.target]):
+                            if isinstance(t_, ast.Attribute) and norm(t_.value) == "self":
+                                loop_writes.add(t_.attr)
+        guard_reads = set()
+        for cl in facts_of(fn).at(node):
+            for (t_, _p) in cl:
+                try:
+                    for x in ast.walk(ast.parse(t_, mode="eval")):
+                        if isinstance(x, ast.Attribute) and isinstance(x.value, ast.Name) and x.value.id == "self":
+                            guard_reads.add(x.attr)
+                except SyntaxError:
+                    pass
+        unstable = sorted(guard_reads & loop_writes)
+        if unstable:
+            ctx.ob(rid, f"{fn.qual}: reservation guard reads {unstable}, written per member by bookResources", (fn, node.ast), False,
+                   f"the test that decides whether the start offset is set aside reads self.{unstable[0]}, which bookResources assigns after each "
+                   "member of a team: the first member gets the reservation, the others book the slot from its beginning and the whole slot is credited",
+                   key=key_of(rid, fn, None, "guard stable across team members"))
         ctx.ob(rid, f"{fn.qual}: {norm(node.ast)[:70]}", (fn, node.ast), ok,
                "the start-offset part of the slot is reserved exactly when less than the offset is in use" if ok else
                "the reservation of the predecessor's part of the start slot is not guarded by exactly `used < offset`: "
@@ -277,7 +303,35 @@ def book_effects_rule(ctx: Ctx, rid: str, which: tuple):
                    key=key_of(rid, book, None, f"effect {key}"))
 
 
+def remaining_seconds_rule(ctx: Ctx, rid: str):
+    """getAvailableSecondsInSlot: every return is a clamped, decreasing function of the seconds the ledger says are used in the slot
+    (C01 R01.2; C06 R06.12 / C03: a slot whose head is set aside for a mid-slot start is not wholly free)."""
+    rem = ctx.repo.func("ResourceScenario.getAvailableSecondsInSlot")
+    # remaining-seconds function antitone in used seconds, clamped at 0
+    res_rem = local_resolver(rem.node)
+
+    def is_used(e):
+        return isinstance(e, ast.Call) and isinstance(e.func, ast.Attribute) and e.func.attr == "get" \
+            and isinstance(e.func.value, ast.Attribute) and e.func.value.attr == "slotSecondsUsed"
+
+    for r in returns(rem):
+        m = mono(r.value, is_used, res_rem)
+        clamp = any(isinstance(c, ast.Call) and norm(c.func) == "max" and any(isinstance(a, ast.Constant) and a.value == 0 for a in c.args)
+                    for c in ast.walk(r.value))
+        ctx.ob(rid, f"{rem.qual}: return {norm(r.value)[:50]}", (rem, r), m == "-" and clamp,
+               "remaining seconds = max(0, slot - used): antitone in used seconds" if (m == "-" and clamp) else
+               f"remaining seconds is not a clamped decreasing function of the seconds used (monotonicity '{m}', clamp={clamp})",
+               key=key_of(rid, rem, r.value))
+        dd = data(ctx.dep.of(rem).deps_of(r.value))
+        ok = "pattr:scheduleGranularity" in dd
+        ctx.ob(rid, f"{rem.qual}: slot length source", (rem, r), ok,
+               "slot length comes from the project's scheduleGranularity" if ok else "slot length is not the project's granularity",
+               key=key_of(rid, rem, None, "granularity"))
+
+
 def run_extra(ctx: Ctx):
+    # ---------------------------------------------------------------- R01.11 the head of the start slot is set aside for every resource the task books
+    offset_reservation_rule(ctx, "R01.11")
     # ---------------------------------------------------------------- R01.8 answers never come from state that outlives the question
     from .common import process_state_rule
     process_state_rule(ctx, "R01.8", [ctx.repo.func("Project.schedule")],
@@ -359,26 +413,7 @@ def run(ctx: Ctx):
                "credited effort = booked seconds x efficiency" if ok else
                "effort returned by book() does not depend on the booked seconds and the efficiency",
                key=key_of("R01.2", book, r.value))
-    # remaining-seconds function antitone in used seconds, clamped at 0
-    res_rem = local_resolver(rem.node)
-
-    def is_used(e):
-        return isinstance(e, ast.Call) and isinstance(e.func, ast.Attribute) and e.func.attr == "get" \
-            and isinstance(e.func.value, ast.Attribute) and e.func.value.attr == "slotSecondsUsed"
-
-    for r in returns(rem):
-        m = mono(r.value, is_used, res_rem)
-        clamp = any(isinstance(c, ast.Call) and norm(c.func) == "max" and any(isinstance(a, ast.Constant) and a.value == 0 for a in c.args)
-                    for c in ast.walk(r.value))
-        ctx.ob("R01.2", f"{rem.qual}: return {norm(r.value)[:50]}", (rem, r), m == "-" and clamp,
-               "remaining seconds = max(0, slot - used): antitone in used seconds" if (m == "-" and clamp) else
-               f"remaining seconds is not a clamped decreasing function of the seconds used (monotonicity '{m}', clamp={clamp})",
-               key=key_of("R01.2", rem, r.value))
-        dd = data(ctx.dep.of(rem).deps_of(r.value))
-        ok = "pattr:scheduleGranularity" in dd
-        ctx.ob("R01.2", f"{rem.qual}: slot length source", (rem, r), ok,
-               "slot length comes from the project's scheduleGranularity" if ok else "slot length is not the project's granularity",
-               key=key_of("R01.2", rem, None, "granularity"))
+    remaining_seconds_rule(ctx, "R01.2")
     # available(): yes only when remaining > 0
     g = cfg_of(avail)
     afacts = facts_of(avail)
